@@ -1,3 +1,4 @@
+import BoolFn.Proofs.Oracle2
 import BoolFn.Props.C04
 import BoolFn.Proofs.Support
 import BoolFn.Proofs.IndexOf
